@@ -60,11 +60,11 @@ Section Inst.
 
   Definition group_model : gobs :=
     let l := parse mn cl st doc in
-    GGen (mock_files mn ta tc l) (mock_props mn ta pid l) (client_props mn tk ta tc sc pid l).
+    GGen (mock_files mn tk ta tc sc l) (mock_props mn tk ta sc pid l) (client_props mn tk ta tc sc pid l).
 
   Definition group_guards : list bool :=
     let l := parse mn cl st doc in
-    [ guard_F13a l; guard_F13b tk l; true (* bit 3 was F13c (fixed) *) ].
+    [ true; true; true ]   (* bits 1-3 were F13a, F13b, F13c (all fixed) *).
 End Inst.
 
 Definition run_groups (cases : list (ginput * gobs)) : list N :=
